@@ -140,7 +140,8 @@ pub fn run_case(env: &Env, ctx: &mut Ctx, idx: u64) {
                 (format!("{}\"unterminated {}", &text[..ts], &text[ts..]), ts, "unterminated-string", true)
             }
             8 => {
-                if text[ts..].contains("*/") {
+                // (after a `/` the inserted `/*` would read as a line comment)
+                if text[ts..].contains("*/") || text[..ts].ends_with('/') {
                     continue;
                 }
                 (format!("{}/* unterminated {}", &text[..ts], &text[ts..]), ts, "unterminated-comment", true)
